@@ -4875,6 +4875,37 @@ func (p *Prog) queriesKeepNoState() []Ob {
 	r := p.R
 	var bad []string
 	n := 0
+	// what Delete resets is state with a life cycle, not something a query keeps for itself
+	resetByDelete := map[*types.Var]bool{}
+	{
+		seen := map[*ssa.Function]bool{}
+		var walk func(f *ssa.Function)
+		walk = func(f *ssa.Function) {
+			if f == nil || seen[f] || f.Blocks == nil || recvNamed(f) != r.Impl {
+				return
+			}
+			seen[f] = true
+			for _, b := range f.Blocks {
+				for _, ins := range b.Instrs {
+					switch x := ins.(type) {
+					case *ssa.Store:
+						if fa, ok := x.Addr.(*ssa.FieldAddr); ok && namedOf(derefPtr(fa.X.Type())) == r.Impl {
+							resetByDelete[fieldVarOfAddr(fa)] = true
+						}
+					case *ssa.Call:
+						nm := calleeName(x.Common())
+						if strings.HasPrefix(nm, "(*sync/atomic.") && !strings.HasSuffix(nm, ").Load") && len(x.Call.Args) > 0 {
+							if fa, ok := x.Call.Args[0].(*ssa.FieldAddr); ok && namedOf(derefPtr(fa.X.Type())) == r.Impl {
+								resetByDelete[fieldVarOfAddr(fa)] = true
+							}
+						}
+						walk(x.Common().StaticCallee())
+					}
+				}
+			}
+		}
+		walk(r.ImplMethods["Delete"])
+	}
 	for _, q := range []string{"Consume", "ConsumeByKey", "Get", "GetByKey", "OffsetByKey", "GetByTime", "OffsetByTime", "NextOffset", "Stat", "Size"} {
 		m := r.ImplMethods[q]
 		if m == nil || m.Blocks == nil {
@@ -4885,14 +4916,14 @@ func (p *Prog) queriesKeepNoState() []Ob {
 			for _, ins := range b.Instrs {
 				switch x := ins.(type) {
 				case *ssa.Store:
-					if fa, ok := x.Addr.(*ssa.FieldAddr); ok && namedOf(derefPtr(fa.X.Type())) == r.Impl {
-						bad = append(bad, fmt.Sprintf("%s: Log.%s stores to the field %s of the log", p.at(x), q, fieldVarOfAddr(fa).Name()))
+					if fa, ok := x.Addr.(*ssa.FieldAddr); ok && namedOf(derefPtr(fa.X.Type())) == r.Impl && !resetByDelete[fieldVarOfAddr(fa)] {
+						bad = append(bad, fmt.Sprintf("%s: Log.%s stores to the field %s of the log, which Delete never resets", p.at(x), q, fieldVarOfAddr(fa).Name()))
 					}
 				case *ssa.Call:
 					nm := calleeName(x.Common())
 					if strings.HasPrefix(nm, "(*sync/atomic.") && (strings.HasSuffix(nm, ").Store") || strings.HasSuffix(nm, ").Add") || strings.HasSuffix(nm, ").Swap") || strings.HasSuffix(nm, ").CompareAndSwap")) && len(x.Call.Args) > 0 {
-						if fa, ok := x.Call.Args[0].(*ssa.FieldAddr); ok && namedOf(derefPtr(fa.X.Type())) == r.Impl {
-							bad = append(bad, fmt.Sprintf("%s: Log.%s updates the atomic field %s of the log", p.at(x), q, fieldVarOfAddr(fa).Name()))
+						if fa, ok := x.Call.Args[0].(*ssa.FieldAddr); ok && namedOf(derefPtr(fa.X.Type())) == r.Impl && !resetByDelete[fieldVarOfAddr(fa)] {
+							bad = append(bad, fmt.Sprintf("%s: Log.%s updates the atomic field %s of the log, which Delete never resets", p.at(x), q, fieldVarOfAddr(fa).Name()))
 						}
 					}
 				}
@@ -4907,7 +4938,7 @@ func (p *Prog) queriesKeepNoState() []Ob {
 		ob.Pos = strings.SplitN(bad[0], ": ", 2)[0]
 		ob.Status, ob.Msg, ob.Path = Violated, "a query remembers something in the log object: its next answer depends on which cursor was served before (two consumers, a resumed consumer, a sweep in the other direction)", uniqSorted(bad)
 	default:
-		ob.Status, ob.Msg = Discharged, fmt.Sprintf("%d query methods, none writes a field of the log object", n)
+		ob.Status, ob.Msg = Discharged, fmt.Sprintf("%d query methods, none writes a field of the log object (other than state that Delete resets)", n)
 	}
 	return []Ob{ob}
 }
